@@ -69,7 +69,16 @@ def ts_to_date(timestamp):
 # Converts date to timestamp of the midnight in seconds, in the given timezone, or UTC by default.
 def date_to_ts(date, timezone=None):
   ts = (date - DATE_EPOCH).total_seconds()
-  return ts if not timezone else ts - timezone.offset(ts * 1000).total_seconds()
+  if not timezone:
+    return ts
+  # Look the offset up by the local time (midnight of the date in the zone), not by the UTC instant.
+  offset = timezone.dt_offset(EPOCH + timedelta(seconds=ts))
+  actual = timezone.offset((ts - offset.total_seconds()) * 1000)
+  if actual != offset:
+    # Local midnight is skipped on this date (clocks jump forward across it): use the offset in
+    # effect before the jump, so that the result is the first hour of the date, not the day before.
+    offset = actual
+  return ts - offset.total_seconds()
 
 # Parses a datetime in the ISO format, YYYY-MM-DDTHH:MM:SS.mmmmmm+HH:MM. Most parts are optional;
 # see https://pypi.org/project/iso8601/ for details. Returns a timestamp in seconds.
